@@ -1,6 +1,7 @@
 package babble
 
 import (
+	"fmt"
 	"net"
 	"net/rpc"
 	"net/rpc/jsonrpc"
@@ -73,6 +74,7 @@ func (p *SocketBabbleProxyServer) listen() error {
 // CommitBlock implements the AppProxy interface
 func (p *SocketBabbleProxyServer) CommitBlock(block hashgraph.Block, response *proxy.CommitResponse) (err error) {
 	*response, err = p.handler.CommitHandler(block)
+	err = rpcError("CommitHandler", err)
 
 	p.logger.WithFields(logrus.Fields{
 		"block":    block.Index(),
@@ -86,6 +88,7 @@ func (p *SocketBabbleProxyServer) CommitBlock(block hashgraph.Block, response *p
 // GetSnapshot implements the AppProxy interface
 func (p *SocketBabbleProxyServer) GetSnapshot(blockIndex int, snapshot *[]byte) (err error) {
 	*snapshot, err = p.handler.SnapshotHandler(blockIndex)
+	err = rpcError("SnapshotHandler", err)
 
 	p.logger.WithFields(logrus.Fields{
 		"block":    blockIndex,
@@ -99,6 +102,7 @@ func (p *SocketBabbleProxyServer) GetSnapshot(blockIndex int, snapshot *[]byte) 
 // Restore implements the AppProxy interface
 func (p *SocketBabbleProxyServer) Restore(snapshot []byte, stateHash *[]byte) (err error) {
 	*stateHash, err = p.handler.RestoreHandler(snapshot)
+	err = rpcError("RestoreHandler", err)
 
 	p.logger.WithFields(logrus.Fields{
 		"state_hash": stateHash,
@@ -110,7 +114,7 @@ func (p *SocketBabbleProxyServer) Restore(snapshot []byte, stateHash *[]byte) (e
 
 // OnStateChanged implements the AppProxy interface
 func (p *SocketBabbleProxyServer) OnStateChanged(state state.State, obj *struct{}) (err error) {
-	err = p.handler.StateChangeHandler(state)
+	err = rpcError("StateChangeHandler", p.handler.StateChangeHandler(state))
 
 	p.logger.WithFields(logrus.Fields{
 		"state": state.String(),
@@ -118,4 +122,14 @@ func (p *SocketBabbleProxyServer) OnStateChanged(state state.State, obj *struct{
 	}).Debug("BabbleProxyServer.OnStateChanged")
 
 	return
+}
+
+// rpcError wraps a handler error so that its message is never empty: net/rpc only
+// transmits an error when its message is not the empty string, and sends the reply
+// value as a successful result otherwise.
+func rpcError(handler string, err error) error {
+	if err == nil {
+		return nil
+	}
+	return fmt.Errorf("%s: %v", handler, err)
 }
